@@ -144,6 +144,13 @@ def compare(sim, gen, ref, run, label):
                         signature=f"succeeds_where_reference_fails:{','.join(gen['hazards']) or 'no_hazard'}")
     if ref[0] == "ok" and run.status == "failed":
         where = run.error.split(":")[0]
+        st = run.step_statuses or {}
+        cancelled = sorted(n for n, v in st.items() if v == "CANCELLED")
+        if where == "WorkflowExecutionException" and cancelled and not any(v == "FAILED" for v in st.values()) and not sim.errors:
+            # no step failed and nothing was logged as an error: the executor closed (cancelling what was still running)
+            # when the output ports terminated and then counted the CANCELLED steps as a failure (listed defect)
+            where = "no_step_failed_only_cancelled_steps"
+            d = f"cancelled={cancelled[:4]}; " + d
         raise Violation("fails_where_reference_succeeds", f"{label}: cwltool returns {json.dumps(ref[1])[:300]} but StreamFlow failed: {run.error}; errors={sim.errors[-2:]}; {d}",
                         signature=f"fails_where_reference_succeeds{fl}" if fl else f"fails_where_reference_succeeds:{where}")
     if ref[0] == "ok":
